@@ -281,3 +281,29 @@ def _(user_cfg, img_left, img_right, pandora_machine):
             not call_arg_mentions("update_conf", 1, 0, "pandora_machine"),
             call_arg_mentions("update_conf", 1, 1, "pandora_machine.pipeline_cfg"),
             not call_arg_mentions("update_conf", 1, 1, "user_cfg"))
+
+
+# C05 / C17: the public check_conf -- the input section is checked first (malformed inputs are refused before any pipeline checking),
+# each image's metadata are read from ITS OWN entries of the checked input section, the pipeline is checked against (left, right) in
+# this order on the caller's machine, and the result concatenates the two checked sections
+@contract("pandora.check_configuration.check_conf", props=["C05", "C17"])
+def _(user_cfg, pandora_machine):
+    types(user_cfg="opaque", pandora_machine="opaque")
+    option(glue=True)
+    ensures("input_checked_first", called_before("check_input_section", "get_metadata"), called_before("check_input_section", "check_pipeline_section"),
+            ncalls("check_input_section") == 1, call_arg_mentions("check_input_section", 0, 0, "get_config_input(user_cfg)"))
+    ensures("metadata_of_each_image_from_its_own_entries", ncalls("get_metadata") == 2,
+            all(("['left']" in t) != ("['right']" in t) for t in event_texts() if "get_metadata(" in t and "check_pipeline_section" not in t),
+            call_arg_mentions("get_metadata", 0, 0, "['left']['img']"), call_arg_mentions("get_metadata", 0, 1, "['left']['disp']"),
+            call_arg_mentions("get_metadata", 0, 2, "['left']['classif']"), call_arg_mentions("get_metadata", 0, 3, "['left']['segm']"),
+            call_arg_mentions("get_metadata", 1, 0, "['right']['img']"), call_arg_mentions("get_metadata", 1, 1, "['right']['disp']"),
+            call_arg_mentions("get_metadata", 1, 2, "['right']['classif']"), call_arg_mentions("get_metadata", 1, 3, "['right']['segm']"))
+    ensures("pipeline_checked_left_then_right", ncalls("check_pipeline_section") == 1,
+            call_arg_mentions("check_pipeline_section", 0, 0, "get_config_pipeline(user_cfg)"),
+            call_arg_mentions("check_pipeline_section", 0, 1, "['left']"), not call_arg_mentions("check_pipeline_section", 0, 1, "['right']"),
+            call_arg_mentions("check_pipeline_section", 0, 2, "['right']"), not call_arg_mentions("check_pipeline_section", 0, 2, "['left']"),
+            call_arg_mentions("check_pipeline_section", 0, 3, "pandora_machine"))
+    # (the CHECKED sections, completed with their defaults -- not the user's raw ones: the list opens with the checked input section,
+    # followed by the checked pipeline section)
+    ensures("both_checked_sections_returned", ncalls("concat_conf") == 1,
+            call_arg_mentions("concat_conf", 0, 0, "[check_input_section(get_config_input(user_cfg)), check_pipeline_section(get_config_pipeline(user_cfg), "))
